@@ -15,9 +15,9 @@ demo() { timeout 600 cargo test --offline --features $FEAT --test $DEMO 2>&1 | g
 echo "== without the change: demo"; D0=$(demo); echo "$D0"
 git apply $OUT/patch.diff
 echo "== with the change: builds"; B1=$(cargo build --offline 2>&1 | tail -1); B2=$(cargo build --offline --features $FEAT 2>&1 | tail -1); echo "$B1 / $B2"
-echo "== with the change: baseline tests"; mv tests/$DEMO.rs /tmp/$DEMO.rs.hold; mv tests/seed_demo*.rs /tmp/ 2>/dev/null
+echo "== with the change: baseline tests"; H=$(mktemp -d); mv tests/seed_demo*.rs $H/
 T1=$(timeout 900 cargo test --workspace --no-fail-fast --offline 2>&1 | grep -E "^test result" | tr '\n' ' '); echo "$T1"
-mv /tmp/$DEMO.rs.hold tests/$DEMO.rs
+mv $H/*.rs tests/; rmdir $H
 echo "== with the change: demo"; D1=$(demo); echo "$D1"
 git checkout -q -- src
 cd /verif
